@@ -221,10 +221,11 @@ pub fn run(ws: &[&str]) -> String {
             fail_no.set(n + 1);
             let kinds = [std::io::ErrorKind::TimedOut, std::io::ErrorKind::ConnectionReset, std::io::ErrorKind::UnexpectedEof, std::io::ErrorKind::InvalidData,
                          std::io::ErrorKind::ConnectionRefused, std::io::ErrorKind::InvalidInput, std::io::ErrorKind::WouldBlock, std::io::ErrorKind::Interrupted];
-            match n % 4 {
+            // (the variant rotates from a start that depends on the case, so that short scripts see every one)
+            match (n + script.len() * 3 + clock.len()) % 4 {
                 0 => oauth2::HttpClientError::Other(e.0),
                 1 => oauth2::HttpClientError::Http(http::Error::from(http::StatusCode::from_u16(0).unwrap_err())),
-                2 => oauth2::HttpClientError::Io(std::io::Error::new(kinds[(n / 4) % kinds.len()], e.0)),
+                2 => oauth2::HttpClientError::Io(std::io::Error::new(kinds[(n / 4 + script.len() + clock.len()) % kinds.len()], e.0)),
                 _ => oauth2::HttpClientError::Reqwest(Box::new(e)),
             }
         })
